@@ -50,6 +50,10 @@ KeyTypes  == {"string", "uint32", "int64", "enum-typedef", "enum-inline", "union
 KeyTypes2 == {"uint32", "enum-typedef", "string"}
 LLTypes   == {"string", "union-su", "enum-inline"}
 
+\* a binary list key is refused by the Go generator ("has a binary key -- this is unsupported"): such a
+\* schema is outside the supported subset; it stays in the model so that the refusal itself is exercised
+Supported(tog) == tog.kt # "binary"
+
 Toggles == [oc : BOOLEAN, kt : KeyTypes, kt2 : KeyTypes2, ord : BOOLEAN, llt : LLTypes, extras : BOOLEAN]
 
 N(p, k, cfg, t, keys, ob, pres, via) == [p |-> p, k |-> k, cfg |-> cfg, t |-> t, keys |-> keys, ob |-> ob, pres |-> pres, via |-> via]
@@ -69,7 +73,7 @@ PlainCore(tog) ==
     List(<<"top", "l">>, TRUE, <<"k">>, OB(tog)),
     Leaf(<<"top", "l", "k">>, TRUE, tog.kt, "plain"), Leaf(<<"top", "l", "v">>, TRUE, "string", "plain"),
     Cont(<<"top", "l", "sub">>, TRUE, "plain"), Leaf(<<"top", "l", "sub", "w">>, TRUE, "uint32", "plain"),
-    List(<<"top", "ml">>, TRUE, <<"k1", "k2">>, "system"),
+    List(<<"top", "ml">>, TRUE, <<"k1", "k2">>, OB(tog)),
     Leaf(<<"top", "ml", "k1">>, TRUE, "string", "plain"), Leaf(<<"top", "ml", "k2">>, TRUE, tog.kt2, "plain"),
     Leaf(<<"top", "ml", "v">>, TRUE, "enum-inline", "plain") }
 
@@ -84,7 +88,11 @@ PlainExtras ==
     Cont(<<"top", "st">>, FALSE, "plain"), List(<<"top", "st", "ul">>, FALSE, << >>, "system"),
     Leaf(<<"top", "st", "ul", "u">>, FALSE, "string", "plain"), Leaf(<<"top", "st", "cnt">>, FALSE, "uint64", "plain"),
     Leaf(<<"top", "idr">>, TRUE, "identityref", "plain"),
-    Leaf(<<"top", "ref">>, TRUE, "leafref:../a", "plain") }
+    Leaf(<<"top", "ref">>, TRUE, "leafref:../a", "plain"),
+    LeafList(<<"top", "refs">>, TRUE, "leafref:../a"),
+    \* a list whose key leaf has the list's own name, a name that needs sanitising in generated identifiers
+    List(<<"top", "n-h">>, TRUE, <<"n-h">>, "system"),
+    Leaf(<<"top", "n-h", "n-h">>, TRUE, "string", "plain"), Leaf(<<"top", "n-h", "d">>, TRUE, "string", "plain") }
 
 \* --- the OpenConfig shape -------------------------------------------------
 \* a config / state pair below p: the leaves ls (name, type, via) in both, the leaves so only in state
@@ -102,7 +110,7 @@ OCCore(tog) ==
   \cup CS(<<"top", "ls", "l">>, {<<"k", tog.kt, "plain">>, <<"v", "string", "plain">>}, {<<"sv", "uint32", "plain">>})
   \cup { Cont(<<"top", "ls", "l", "sub">>, TRUE, "plain") }
   \cup CS(<<"top", "ls", "l", "sub">>, {<<"w", "uint32", "plain">>}, {})
-  \cup { Cont(<<"top", "mls">>, TRUE, "plain"), List(<<"top", "mls", "ml">>, TRUE, <<"k1", "k2">>, "system"),
+  \cup { Cont(<<"top", "mls">>, TRUE, "plain"), List(<<"top", "mls", "ml">>, TRUE, <<"k1", "k2">>, OB(tog)),
          Leaf(<<"top", "mls", "ml", "k1">>, TRUE, "leafref:../config/k1", "plain"),
          Leaf(<<"top", "mls", "ml", "k2">>, TRUE, "leafref:../config/k2", "plain") }
   \cup CS(<<"top", "mls", "ml">>, {<<"k1", "string", "plain">>, <<"k2", tog.kt2, "plain">>, <<"v", "enum-inline", "plain">>}, {})
@@ -118,7 +126,13 @@ OCExtras ==
          Leaf(<<"top", "config", "g">>, TRUE, "string", "grouping"), Leaf(<<"top", "state", "g">>, FALSE, "string", "grouping"),
          Leaf(<<"top", "config", "aug">>, TRUE, "string", "augment"), Leaf(<<"top", "state", "aug">>, FALSE, "string", "augment"),
          Leaf(<<"top", "config", "idr">>, TRUE, "identityref", "plain"), Leaf(<<"top", "state", "idr">>, FALSE, "identityref", "plain"),
-         Leaf(<<"top", "config", "ref">>, TRUE, "leafref:../a", "plain"), Leaf(<<"top", "state", "ref">>, FALSE, "leafref:../a", "plain") }
+         Leaf(<<"top", "config", "ref">>, TRUE, "leafref:../a", "plain"), Leaf(<<"top", "state", "ref">>, FALSE, "leafref:../a", "plain"),
+         \* a leaf-list of leafrefs whose path goes through a config container (rewritten to state with prefer_operational_state)
+         LeafList(<<"top", "config", "refs">>, TRUE, "leafref:../../config/a"), LeafList(<<"top", "state", "refs">>, FALSE, "leafref:../../config/a") }
+  \* a list whose key leaf has the list's own name, a name that needs sanitising in generated identifiers
+  \cup { Cont(<<"top", "n-hs">>, TRUE, "plain"), List(<<"top", "n-hs", "n-h">>, TRUE, <<"n-h">>, "system"),
+         Leaf(<<"top", "n-hs", "n-h", "n-h">>, TRUE, "leafref:../config/n-h", "plain") }
+  \cup CS(<<"top", "n-hs", "n-h">>, {<<"n-h", "string", "plain">>, <<"d", "string", "plain">>}, {})
   \cup { Pres(<<"top", "p">>) } \cup CS(<<"top", "p">>, {<<"x", "empty", "plain">>}, {})
   \* a container below state (becomes a child of top), and a keyed state list with its surrounding container
   \cup { Cont(<<"top", "state", "counters">>, FALSE, "plain"), Leaf(<<"top", "state", "counters", "in">>, FALSE, "uint64", "plain"),
@@ -256,7 +270,7 @@ FieldJson(x) == [struct |-> PathStr(x.s), node |-> PathStr(x.f.n.p), k |-> x.f.n
 
 Emit ==
   chosen =>
-    PrintT("GEN " \o ToJson([tog |-> tog, beh |-> beh,
+    PrintT("GEN " \o ToJson([tog |-> tog, beh |-> beh, supported |-> Supported(tog),
                               nodes |-> SetSeq({NodeJson(n) : n \in S}),
                               structs |-> SetSeq({PathStr(e.p) : e \in Structs(S, beh)}),
                               fields |-> SetSeq({FieldJson(x) : x \in FS})]))
